@@ -20,22 +20,30 @@ import (
 
 // recCase: a chain with Recovery somewhere, a panic somewhere later, a request sequence (C15).
 type recCase struct {
-	Env    string   `json:"env"`                                 // development | production | test
-	Built  string   `json:"assembled_in_env,omitempty"`          // the instance (incl. Recovery) is assembled while this environment is set, then the environment is switched to Env (serial cases only)
-	Pre    int      `json:"pre"`                                 // middleware placed before Recovery
-	Mid    []string `json:"mid"`                                 // handlers between Recovery and the panic site: plain | next | write-next
-	Where  string   `json:"where"`                               // route | action | notfound | group
-	Phase  string   `json:"phase"`                               // before | after-header | after-body
-	Kind   string   `json:"kind"`                                // string | error | runtime | struct | int | abort | dep
-	Accept string   `json:"accept,omitempty"`                    // request header: the body of the error response does not depend on it
-	Buffer bool     `json:"buffering_writer_in_front,omitempty"` // the first middleware (before Recovery) substitutes the http.ResponseWriter service by a buffer and releases it after Next(); Kind may also be nilerr (an error value whose Error method cannot run)
-	Marker string   `json:"marker"`                              // unique text carried by the panic value
-	Seq    []string `json:"seq"`                                 // ok | panic …
+	Env    string   `json:"env"`                                        // development | production | test
+	Built  string   `json:"assembled_in_env,omitempty"`                 // the instance (incl. Recovery) is assembled while this environment is set, then the environment is switched to Env (serial cases only)
+	Pre    int      `json:"pre"`                                        // middleware placed before Recovery
+	Mid    []string `json:"mid"`                                        // handlers between Recovery and the panic site: plain | next | write-next
+	Where  string   `json:"where"`                                      // route | action | notfound | group
+	Phase  string   `json:"phase"`                                      // before | after-header | after-body
+	Kind   string   `json:"kind"`                                       // string | error | runtime | struct | int | abort | dep | nilerr | neterr-* | slice | map | structslice | sliceerr (values of uncomparable types)
+	Accept string   `json:"accept,omitempty"`                           // request header: the body of the error response does not depend on it
+	Buffer bool     `json:"buffering_writer_in_front,omitempty"`        // the first middleware (before Recovery) substitutes the http.ResponseWriter service by a buffer and releases it after Next(); Kind may also be nilerr (an error value whose Error method cannot run)
+	Inner  bool     `json:"second_recovery_nearer_the_panic,omitempty"` // a second Recovery sits after the mid handlers, with one more Next()-calling middleware between the two: the panic stops at the inner one, so that middleware (placed before a Recovery) completes as well
+	Marker string   `json:"marker"`                                     // unique text carried by the panic value
+	Seq    []string `json:"seq"`                                        // ok | panic …
 }
 
 type c15Missing struct{ _ int }
 type c15Struct struct{ M string }
 type c15BadErr struct{ msg string }
+type c15StructSlice struct {
+	M    string
+	Tags []string
+}
+type c15SliceErr []string
+
+func (e c15SliceErr) Error() string { return strings.Join(e, "+") }
 
 func (e *c15BadErr) Error() string { return e.msg } // panics on a nil receiver
 
@@ -82,7 +90,8 @@ func genRecCase(rng *rand.Rand, env string) *recCase {
 	}
 	c.Where = []string{"route", "route", "action", "notfound", "group"}[rng.Intn(5)]
 	c.Phase = []string{"before", "before", "after-header", "after-body"}[rng.Intn(4)]
-	c.Kind = []string{"string", "error", "runtime", "struct", "int", "abort", "dep", "nilerr", "neterr-epipe", "neterr-reset"}[rng.Intn(10)]
+	c.Kind = []string{"string", "error", "runtime", "struct", "int", "abort", "dep", "nilerr", "neterr-epipe", "neterr-reset", "slice", "map", "structslice", "sliceerr"}[rng.Intn(14)]
+	c.Inner = rng.Intn(5) == 0
 	if rng.Intn(6) == 0 {
 		// a buffering middleware in front of Recovery; nothing else writes, the panic comes before any write
 		c.Buffer = true
@@ -209,6 +218,12 @@ func recVerdict(c *recCase, o recObs) string {
 			return fmt.Sprintf("middleware %d placed before Recovery: entered=%v, completed its code after Next()=%v", i, pre, post)
 		}
 	}
+	if c.Inner {
+		ev := strings.Join(o.events, ",")
+		if !strings.Contains(ev, "pre-between") || !strings.Contains(ev, "post-between") {
+			return fmt.Sprintf("the middleware between the two Recovery instances (placed before the inner one): events %v - it must be entered and must complete its code after Next()", o.events)
+		}
+	}
 	return ""
 }
 
@@ -309,6 +324,17 @@ func judgeRec(w *core.W, c *recCase) {
 			}
 		})
 	}
+	if c.Inner {
+		f.Use(func(ctx flamego.Context) {
+			if !armed {
+				return
+			}
+			events = append(events, "pre-between")
+			ctx.Next()
+			events = append(events, "post-between")
+		})
+		f.Use(flamego.Recovery())
+	}
 	boom := func(ctx flamego.Context) {
 		switch c.Phase {
 		case "after-header":
@@ -333,6 +359,14 @@ func judgeRec(w *core.W, c *recCase) {
 			panic(n)
 		case "abort":
 			panic(http.ErrAbortHandler)
+		case "slice":
+			panic([]string{c.Marker})
+		case "map":
+			panic(map[string]string{"detail": c.Marker})
+		case "structslice":
+			panic(c15StructSlice{M: c.Marker, Tags: []string{"a"}})
+		case "sliceerr":
+			panic(c15SliceErr{c.Marker, "x"})
 		case "nilerr":
 			var e *c15BadErr
 			panic(e)
@@ -426,6 +460,9 @@ func judgeRec(w *core.W, c *recCase) {
 	if c.Buffer {
 		w.Count("buffering-writer-in-front-of-recovery")
 	}
+	if c.Inner {
+		w.Count("second-recovery-nearer-the-panic")
+	}
 	w.Count("phase:" + c.Phase)
 	w.Count("where:" + c.Where)
 	w.Count("depth:" + nested)
@@ -434,7 +471,7 @@ func judgeRec(w *core.W, c *recCase) {
 }
 
 func runC15(r *core.Run) {
-	r.Rule("chains with 0-2 middleware before Recovery, 0-3 handlers between Recovery and the panic site (plain / calling Next / writing then calling Next), panic site in a route handler, a grouped route reached through Next, the action, or the not-found chain; phases before any write / after the status / after body bytes; panic values string, error, runtime error, struct, int, http.ErrAbortHandler, and an unresolvable dependency; request sequences mixing healthy and panicking requests on one instance; the three environments in sequential phases (the environment is process-global), plus serial cases assembled under one environment and served under another. Oracle: nothing reaches recover() around ServeHTTP; status 500 iff nothing sent before, else the first status; body = bytes written before the panic + detail (development) or generic text; outer middleware completes after Next(); healthy follow-up requests equal their pre-panic baseline. non-trivial = distinct (environment, value kind, phase, site, nesting, chain shape)")
+	r.Rule("chains with 0-2 middleware before Recovery, 0-3 handlers between Recovery and the panic site (plain / calling Next / writing then calling Next), panic site in a route handler, a grouped route reached through Next, the action, or the not-found chain; phases before any write / after the status / after body bytes; panic values string, error, runtime error, struct, int, http.ErrAbortHandler, values of uncomparable types (slice, map, struct with a slice, slice-typed error), and an unresolvable dependency; one case in five with a second Recovery nearer the panic and a Next()-calling middleware between the two; request sequences mixing healthy and panicking requests on one instance; the three environments in sequential phases (the environment is process-global), plus serial cases assembled under one environment and served under another. Oracle: nothing reaches recover() around ServeHTTP; status 500 iff nothing sent before, else the first status; body = bytes written before the panic + detail (development) or generic text; outer middleware completes after Next(); healthy follow-up requests equal their pre-panic baseline. non-trivial = distinct (environment, value kind, phase, site, nesting, chain shape)")
 	r.Assume("panics are raised in handlers after Recovery; Recovery logs to io.Discard")
 	c15Canaries(r)
 	orig := flamego.Env()
@@ -462,7 +499,7 @@ func runC15(r *core.Run) {
 	ws.Done()
 	ws.Merge()
 	flamego.SetEnv(orig)
-	for _, k := range []string{"environment-switched-after-assembly", "kind:string", "kind:error", "kind:runtime", "kind:struct", "kind:int", "kind:abort", "kind:dep", "kind:nilerr", "kind:neterr-epipe", "kind:neterr-reset", "request-context-cancelled-while-unwinding", "buffering-writer-in-front-of-recovery", "phase:before", "phase:after-header", "phase:after-body", "where:route", "where:group", "where:action", "where:notfound", "depth:flat", "depth:nested-next", "follow-up-requests"} {
+	for _, k := range []string{"environment-switched-after-assembly", "kind:string", "kind:error", "kind:runtime", "kind:struct", "kind:int", "kind:abort", "kind:dep", "kind:nilerr", "kind:neterr-epipe", "kind:neterr-reset", "kind:slice", "kind:map", "kind:structslice", "kind:sliceerr", "second-recovery-nearer-the-panic", "request-context-cancelled-while-unwinding", "buffering-writer-in-front-of-recovery", "phase:before", "phase:after-header", "phase:after-body", "where:route", "where:group", "where:action", "where:notfound", "depth:flat", "depth:nested-next", "follow-up-requests"} {
 		r.GateCounter(k, 100)
 	}
 	r.Gate("distinct_nontrivial", r.NonTrivialCount(), 1000)
